@@ -35,6 +35,14 @@ def main():
             try:
                 common.run_corpus(ctx, mod)
                 mod.run(ctx)
+            except Exception:
+                # the correspondence / search could not be completed on this tree (real code or a worker raised somewhere the
+                # property module did not expect): the property is no longer shown to hold -> a broken obligation, decided
+                # below together with whatever the run had already found; never a crash of the check (exit 2)
+                tb = traceback.format_exc()
+                traceback.print_exc()
+                ctx.disagree("harness:run-incomplete", "the property module stopped with an exception before finishing its "
+                             "correspondence and search: " + " | ".join(tb.strip().splitlines()[-6:])[:900])
             finally:
                 common.stop_cover(ctx)
             code = common.decide(ctx, mod)
